@@ -266,6 +266,7 @@ func cmdRun(args []string) {
 	fs.IntVar(&cfg.EnvFires, "envfires", cfg.EnvFires, "environment firings bound")
 	fs.BoolVar(&cfg.Race, "race", false, "happens-before race monitor")
 	fs.IntVar(&cfg.NPBound, "npbound", 0, "bound on free scheduling choices at blocking points")
+	fs.BoolVar(&cfg.EnvBoundOK, "envboundok", false, "timer budget exhaustion truncates the path instead of reporting a deadlock")
 	fs.BoolVar(&cfg.EnvLazy, "envlazy", false, "tickers fire only when all goroutines are blocked")
 	models := fs.Bool("models", false, "collect a model per completed path")
 	pstr := fs.String("params", "", "harness parameters k=v,k=v")
